@@ -71,6 +71,8 @@ struct World {
         for (unsigned i = 0; i < 2; i++) if (i < nf) { QString q = qstr(symTxt()); vp_c20_strlist_push(&fl, &q); }
         caps.setFeatures(fl);
         g_caps = &caps;
+        // vp_c20_capabilities is only called from the C model of capabilities(): one direct call keeps it in the translated program
+        { VpRaw<QXmppDiscoveryIq> probe; vp_c20_capabilities(probe.p()); }
     }
 };
 [[maybe_unused]] static bool txtStartsWith(const Txt &s, const Txt &prefix)
